@@ -1,16 +1,16 @@
 SPECIFICATION Spec
 CONSTANTS
-  NF = 1
-  MaxLen = 10
-  Kinds = {"sublog", "subshort", "mod", "modeonly"}
-  MaxHunks = 1
-  MaxBody = 2
+  NF = 2
+  MaxLen = 9
+  Kinds = {"mod", "add", "addempty", "del", "rename", "renmod", "copy", "modeonly", "modemod", "bin", "binadd"}
+  MaxHunks = 2
+  MaxBody = 3
   Preamble = TRUE
   MaxConf = 1
   Buf = 1
   Fixes = {"D1", "D14", "D2", "D18", "D19", "D20", "D21", "D23"}
   ColorOnly = FALSE
-  Modes = {}
+  Modes = {"word-diff"}
   ReplayLen = 0
 INVARIANTS RowsOnceInOrder Lag PrefixStable Boundary LanguageByName Replay
 PROPERTY NeverRevised
